@@ -228,6 +228,62 @@ def generate(F, limit=None):
             continue
         if limit and len(lines) >= limit:
             break
+    # the tensor kernels themselves (C09): constexpr members and free operators of the four tensor classes
+    tnames = ["PhQ::%s<%s>" % (c, T) for c in ("PlanarVector", "Vector", "SymmetricDyad", "Dyad")]
+    cands = []
+    for tn in tnames:
+        for f in F.methods(tn):
+            if "body" in f and f.get("constexpr") and f["kind"] == "method" and f.get("const") and not f.get("static") and f.get("access") == "public":
+                cands.append((f, tn))
+    for f in F.fns.values():
+        if f.get("kind") == "function" and f.get("op") in ("+", "-", "*", "/") and "body" in f and f.get("constexpr") and len(f["params"]) == 2:
+            pts = [strip_cvref(x) for x in F.param_types(f)]
+            if all(p in tnames or p == T for p in pts) and any(p in tnames for p in pts):
+                cands.append((f, None))
+    for f, this_t in cands:
+        try:
+            rt = strip_cvref(F.T(f["ret"]))
+            if rt.startswith("std::"):
+                skipped += 1
+                continue
+            env, ops = {}, []
+            ok = True
+            if this_t:
+                c = B.construct(this_t, "self", env)
+                ok &= c is not None
+                ops.append(c)
+            pts = F.param_types(f)
+            if any(strip_cvref(p) not in tnames and strip_cvref(p) != T for p in pts):
+                skipped += 1
+                continue
+            for i, pt in enumerate(pts):
+                c = B.construct(pt, f["params"][i]["n"] or "arg%d" % i, env)
+                ok &= c is not None
+                ops.append(c)
+            if not ok:
+                skipped += 1
+                continue
+            E = ev.Evaluator(F)
+            res, this_lv, _ = E.run_symbolic(f, this_prefix="self")
+            val = E.rv(res)
+            if this_t:
+                expr = "(%s).%s(%s)" % (ops[0], f["sname"], ", ".join(ops[1:]))
+            else:
+                expr = "(%s) %s (%s)" % (ops[0], f["op"], ops[1])
+            outs = B.extract(expr, rt)
+            slots = [t for _, t in ev.flatten(val)]
+            if outs is None or len(outs) != len(slots):
+                skipped += 1
+                continue
+            for o, t in zip(outs, slots):
+                want = tval(t, env)
+                w = mpmath.nstr(want, 25)
+                if "." not in w and "e" not in w and "n" not in w:
+                    w += ".0"
+                lines.append("static_assert(vf_close(static_cast<long double>(%s), %sL, %sL), \"%d\");" % (o, w, eps, len(lines)))
+                descs.append("%s slot %s expected %s" % (f["name"] + str([strip_cvref(x).replace("PhQ::", "") for x in pts]), o[-24:], w))
+        except (ev.Inconclusive, KeyError, ZeroDivisionError):
+            skipped += 1
     return lines, descs, skipped
 
 
